@@ -244,6 +244,21 @@ def check_counts(prog, r):
                     ee = rend.operand(t2["args"][0], 14)
                     iterated |= set(expr_vars(ee)) | set(expr_fields(ee))
             common = (counted & iterated) - {"self"}
+            # .. and the loop writes one entry per element: no iteration can end without appending to the buffer
+            for h, body, backs in loops(fv):
+                nexts = [b for b in body if fv.blocks[b]["t"]["t"] == "call" and (fv.blocks[b]["t"]["f"].get("name") or "").endswith("Iterator::next")]
+                if h not in fv.reach_after(bi) or not nexts:
+                    continue
+                inner_of_other = [1 for h2, body2, _ in loops(fv) if h2 != h and h in body2 and h2 in fv.reach_after(bi)]
+                if inner_of_other:
+                    continue        # nested loops (attribute lists of one entry) are not the counted collection
+                writes = [b for b in body if fv.blocks[b]["t"]["t"] == "call" and re.search(r"BufMut::put_\w+$|::extend_from_slice$|::encode\w*$|::write_\w+$|mrt::encode_\w+$", fv.blocks[b]["t"]["f"].get("name") or "")]
+                nb = nexts[0]
+                if nb in fv.reach_after(nb, removed_blocks=set(writes) | {b for b in fv.live if b not in body}):
+                    r.fail(nm, "count-skips-entry", "the count written at line %d is the length of the collection, but an iteration of the loop that writes the entries can end without writing one "
+                           "(line %d): the record announces more entries than it contains" % (fv.line(bi), fv.line(nb)), fv.loc(nb))
+                else:
+                    r.ok("%s@%d: every iteration of the entry loop appends to the record" % (short(nm), fv.line(bi)))
             if common:
                 r.ok("%s@%d: the count written is the length of `%s`, which the following loop writes" % (short(nm), fv.line(bi), "/".join(sorted(common))))
             else:
@@ -312,6 +327,53 @@ def check_addpath_state(prog, r):
             else:
                 r.ok("%s: set_family(addpath_tx = record.addpath) for every record that carries a family" % container)
     r.floor("set_family sites in the BMP/MRT encoders", n, 2)
+    # .. and the flag itself is the monitored session's: a Route Monitoring record built from a change that carries an `addpath`
+    # setting (Adj-RIB-In / Adj-RIB-Out changes) states that setting, not a constant
+    structs_with_flag = {nm for nm, a in prog.adt_by_name.items() if len(a["variants"]) == 1 and any(f["n"] == "addpath" for f in a["variants"][0]["fields"]) and nm.startswith("rustybgpd::")}
+    m = 0
+    for k in crate_fns(prog, "rustybgpd"):
+        nm = prog.ix[k]["name"]
+        if "::tests::" in nm:
+            continue
+        fv = view(prog, k)
+        ags = fv.aggregates(re.compile(r"rustybgp_packet::bmp::Message$"), "RouteMonitoring")
+        if not ags:
+            continue
+        r.analysed(root_name(prog, k))
+        rend = Renderer(fv, depth=10, through_names=True)
+        plain = Renderer(fv, depth=10)
+        try:
+            names = [f["n"] for v in prog.adt(r"rustybgp_packet::bmp::Message")["variants"] if v["n"] == "RouteMonitoring" for f in v["fields"]]
+            ia = names.index("addpath")
+        except Exception:
+            r.unanalysable("bmp::Message::RouteMonitoring has no `addpath` field", fv.loc())
+            break
+        for bi, si, st in ags:
+            fields = st["rv"]["fields"]
+            srcs = set()
+            for j, o in enumerate(fields):
+                if j == ia:
+                    continue
+                for e in (rend.operand(o, 10), plain.operand(o, 10)):
+                    for v in expr_vars(e):
+                        for l, n_ in fv.local_name.items():
+                            if n_ == v and l < len(fv.f["locals"]):
+                                ty = re.sub(r"^(&(mut )?)+", "", fv.f["locals"][l])
+                                ty = re.sub(r"<.*", "", ty)
+                                hit = [s_ for s_ in structs_with_flag if s_ == ty or s_.endswith("::" + ty) or ty.endswith("::" + s_.split("::", 1)[-1])]
+                                if hit:
+                                    srcs.add(v)
+            if not srcs:
+                continue        # End-of-RIB markers, Loc-RIB records: no session add-path setting is involved
+            m += 1
+            ea = rend.operand(fields[ia], 10)
+            ep = plain.operand(fields[ia], 10)
+            if any("addpath" in expr_fields(x) for x in (ea, ep)):
+                r.ok("%s@%d: Route Monitoring built from `%s` states its add-path setting" % (short(root_name(prog, k)), fv.line(bi), "/".join(sorted(srcs))))
+            else:
+                r.fail(root_name(prog, k), "route-monitoring-addpath-not-from-change", "the Route Monitoring record built from `%s` states add-path = %s instead of the change's own setting: the UPDATE of an "
+                       "add-path session is encoded without path identifiers, so it does not parse back with the session's setting and the path ids are lost" % ("/".join(sorted(srcs)), show(ea, 40)), fv.loc(bi))
+    r.floor("Route Monitoring records built from a change with an add-path setting", m, 5)
 
 
 # ---------------------------------------------------------------------------------------------- R19.4
